@@ -24,9 +24,20 @@ What this check does
     replayed on a table built the way process() / goforit() build it - pks_table(npk) in shared memory,
     filled through pks_table.fromSHM(export()) per scan, overlap weights != 1 - with the operations
     find_uniq() again, find_uniq(use_scipy=True) (int32 labels, scipy's numbering), save() +
-    pks_table.load() or + dataset.DataSet.peaks_table / pk2d / pk4d (scale = monitor_ref / monitor),
+    pks_table.load() or + dataset.DataSet.peaks_table / pk2d / pk4d (scale = monitor_ref / monitor; in turn
+    ONE DataSet whose tables are read, then given the monitor + reset_peaks_cache(), then read again - 2D
+    table first / merged table first - or new DataSets with the monitor given before any read),
     pk2dmerge again; after EVERY operation the labels the table holds and the merged / 2D tables
     computed from them are judged.  The seeded families run two such histories as well.
+ 5b. DataSet histories (LabelND DsHist > 0, configurations ds, dscore; thorough: ds4, dsdeep): the labelled
+    table is saved by the user route, a dataset.DataSet (master file with two monitors) is opened on it and
+    EVERY sequence of 3 operations out of ds.pk2d, ds.pk4d, get_cf_2d(), get_cf_4d(), ds.peaks_table,
+    set_monitor (monitor 1 with the default np.mean, monitor 2 with a constant reference),
+    reset_peaks_cache(), save() + dataset.load()  (every sequence of 4 of pk2d / pk4d / set_monitor x 2 /
+    reset; thorough: 4 of all, 6 of these), closed by reading pk2d and pk4d, is replayed on a real DataSet
+    (child process).  The law (invariant DsLaw): every table read is the table of the labels of the file
+    with the scale factors monitor_ref / monitor of the monitor in force at that moment (none before the
+    first set_monitor) - judged against exact integer sums and the specification's rows.
  6. Harness-only families where the model is covariant (said so in the LabelND header): table value
     classes (sI to 1e9, monitor-style non-dyadic scale factors, scale = 0, Fortran-ordered / float32 /
     strided omega, dty, scale) judged against exact integer arithmetic on the binary values of the
@@ -39,6 +50,9 @@ What this check does
     list is taken as the code produced it (captured when save() is entered; producing it is C13 / C14).
  8. Peaks without any overlap through pks_table(npk): finding C15-shm-empty-overlap-list (reported as a
     violation unless that entry is in known_findings.json; matcher in probe_empty).
+ Not in the DataSet histories (said in the LabelND header): ds.load() INTO a DataSet that already holds
+ tables, a pksfile rewritten under an open DataSet, get_cf_*() answered from a column file on disk
+ (the code warns that it is out of date), assigning ds.monitor without reset_peaks_cache().
  Outside the quantifier, recorded under notes["observations"] only: n = 0 (a graph has nodes; the
  shared-memory constructor cannot build an empty table at all), load() of a table saved before labelling.
 """
@@ -55,6 +69,11 @@ F_SHM = "C15-shm-empty-overlap-list"
 ACTIONS = ("Grab", "Read1", "Read2", "Write1", "Write2", "EndSweep", "CountStep", "CountEnd",
            "FixGrab", "FixRead", "FixRead2", "FixWrite", "FixEnd", "Merge")
 HIST_ACTIONS = ("RelabelNumba", "RelabelScipy", "SaveLoad", "Remerge")
+DS_CORE = ("DsOpen", "DsRead2", "DsRead4", "DsSetMonitor", "DsReset", "DsClose")
+DS_ALL = DS_CORE + ("DsTable", "DsSaveLoad")
+# configuration -> (records = 3 graphs x histories, actions that must be taken)
+DS_CONFIGS = {"ds": (3 * 9 ** 3, DS_ALL), "dscore": (3 * 5 ** 4, DS_CORE),
+              "ds4": (3 * 9 ** 4, DS_ALL), "dsdeep": (3 * 5 ** 6, DS_CORE)}
 SAFETY_INV = ("TypeOK", "InComp", "MinFixed", "LocalsOK", "ZeroAgree", "Fixpoint", "FixReadsRoot",
               "CleanOK", "MergeOK", "SweepLegal", "SeqExact")
 
@@ -429,8 +448,14 @@ def stage_obs(t, table, name):
     return st
 
 
+_ds_stage_count = [0]
+
+
 def dataset_stage(D, path, table, name):
-    """dataset.py:818-846: peaks_table -> pks_table.load(pksfile); pk2d / pk4d with and without monitor"""
+    """dataset.py:818-846: peaks_table -> pks_table.load(pksfile); pk2d / pk4d with and without monitor.
+    Three ways in turn: (0) ONE DataSet: both tables read without monitor, then the monitor is given
+    (monitor, monitor_ref set; reset_peaks_cache() as its docstring asks) and both are read again;
+    (1) the same with the merged table read first; (2) two new DataSets, the monitor given before any read"""
     def mk(scaled):
         ds = D.DataSet()
         ds.pksfile = path
@@ -439,11 +464,24 @@ def dataset_stage(D, path, table, name):
         if scaled:
             ds.monitor, ds.monitor_ref = monitor_of(table)
         return ds
-    dsu, dss = mk(False), mk(True)
-    t = dsu.peaks_table
-    st = {"name": name, "attrs": (int(t.nlabel), np.array(t.glabel)),
-          "merge_u": copy_dict(dsu.pk4d), "merge_s": copy_dict(dss.pk4d),
-          "pk2d_u": copy_dict(dsu.pk2d), "pk2d_s": copy_dict(dss.pk2d)}
+    way = _ds_stage_count[0] % 3
+    _ds_stage_count[0] += 1
+    if way == 2:
+        dsu, dss = mk(False), mk(True)
+        t = dsu.peaks_table
+        st = {"name": name, "attrs": (int(t.nlabel), np.array(t.glabel)),
+              "merge_u": copy_dict(dsu.pk4d), "merge_s": copy_dict(dss.pk4d),
+              "pk2d_u": copy_dict(dsu.pk2d), "pk2d_s": copy_dict(dss.pk2d)}
+        return st, t
+    ds = mk(False)
+    t = ds.peaks_table
+    st = {"name": name + (" [one DataSet: tables, monitor, tables]"), "attrs": (int(t.nlabel), np.array(t.glabel))}
+    for suffix in ("_u", "_s"):
+        for key in (("pk2d", "merge") if way == 0 else ("merge", "pk2d")):
+            st[key + suffix] = copy_dict(ds.pk2d if key == "pk2d" else ds.pk4d)
+        if suffix == "_u":
+            ds.monitor, ds.monitor_ref = monitor_of(table)
+            ds.reset_peaks_cache()
     return st, t
 
 
@@ -516,7 +554,7 @@ def judge_stages(n, root, table, obs, stats=None, spec=None):
         if pr:
             problems += ["after %s: %s" % (st["name"], p) for p in pr]
             continue
-        last = ([o for o in st["name"].replace(" (dataset)", "").split("+") if o in ("find_uniq", "numba", "scipy")]
+        last = ([o for o in st["name"].split(" ")[0].split("+") if o in ("find_uniq", "numba", "scipy")]
                 or ["find_uniq"])[-1]
         if stats is not None:
             stats["stages_judged"] = stats.get("stages_judged", 0) + 1
@@ -537,6 +575,321 @@ def judge_stages(n, root, table, obs, stats=None, spec=None):
         problems += ["after %s: %s" % (st["name"], p) for p in pr]
     return problems
 
+
+# --------------------------------------------------------------------------------------
+# DataSet histories (LabelND DsHist > 0): the caches of dataset.DataSet that feed the merge with
+# scale factors.  THE LAW: every table read is the table of the CURRENT labels with the CURRENT
+# scale factors (= monitor_ref / monitor of the monitor in force, none before the first set_monitor).
+
+DS_READS = ("pk2d", "pk4d", "cf2d", "cf4d")
+
+
+class DsEnv(object):
+    """files of one instance: the labelled table saved by the user route (pks_table(npk) -> find_uniq ->
+    save) and a master file holding the monitors; open() gives a new DataSet on them.
+    Expectations: tabs[m] = (L.Table with the scale factors of monitor m, scaled?) - m = 0: no monitor"""
+
+    def __init__(self, n, ei, ej, root, props, omega, dty, monitors, monrefs, monscale, monscaleden,
+                 shape=(2, 2), sd=0, stats=None, rows=None):
+        self.n, self.ei, self.ej, self.root = int(n), np.asarray(ei, np.int64), np.asarray(ej, np.int64), root
+        self.sd, self.stats = sd, stats
+        self.dir = None
+        self.saved = None                    # (nlabel, labels) of the saved table, once the files exist
+        self.shape = tuple(shape)
+        self.rows = rows                     # specification rows per monitor (optional)
+        self.monitors = [np.asarray(m, float).reshape(self.shape) for m in monitors]
+        self.monrefs = [float(r) for r in monrefs]
+        self.tabs = []
+        for m in range(len(monscale)):
+            self.tabs.append((L.Table(props, self.shape, omega, 1, dty, 1, monscale[m], int(monscaleden[m])), m > 0))
+
+    def files(self):
+        """the real code writes the table (once)"""
+        if self.dir is not None:
+            return
+        numba, P, threads = load_real()
+        import h5py
+        t0 = self.tabs[0][0]
+        _tmpcount[0] += 1
+        self.dir = os.path.join(common.scratch(), "c15_ds_%d_%d" % (os.getpid(), _tmpcount[0]))
+        os.makedirs(self.dir)
+        self.scans = ["%d.1" % (k + 1) for k in range(self.shape[0])]
+        self.master = os.path.join(self.dir, "master.h5")
+        with h5py.File(self.master, "w") as h:
+            for k, sc in enumerate(self.scans):
+                g = h.require_group(sc).require_group("measurement")
+                for m, mon in enumerate(self.monitors):
+                    g["mon%d" % (m + 1)] = mon[k]
+        self.pksfile = os.path.join(self.dir, "pks.h5")
+        with hush():
+            t = make_route_table(P, self.n, self.ei, self.ej, t0, self.sd, self.stats)
+            cc = t.find_uniq()
+            t.save(self.pksfile)
+            self.saved = (int(t.nlabel), np.array(t.glabel))
+            del t
+        self.nsave = 0
+
+    def open(self):
+        self.files()
+        D = _real["D"]
+        ds = D.DataSet(dataroot=self.dir, analysisroot=self.dir, sample="s", dset="d")
+        t0 = self.tabs[0][0]
+        ds.scans = list(self.scans)
+        ds.shape = self.shape
+        ds.omega = t0.omega().copy()
+        ds.dty = t0.dty().copy()
+        ds.guessbins()
+        ds.masterfile = self.master
+        ds.pksfile = self.pksfile
+        ds.splinefile = None           # no spatial correction
+        return ds
+
+    def saveload(self, ds):
+        D = _real["D"]
+        self.nsave += 1
+        path = os.path.join(self.dir, "ds_%d.h5" % self.nsave)
+        try:
+            ds.save(path)
+            ds2 = D.load(path)
+        finally:
+            if os.path.exists(path):
+                os.remove(path)
+        # splinefile = None is not written by save(): a dataset without spatial correction is told so again
+        if not hasattr(ds2, "splinefile"):
+            ds2.splinefile = None
+        return ds2
+
+
+def cf_dict(cf):
+    return {t: np.array(cf.getcolumn(t)) for t in cf.titles}
+
+
+def observe_ds(env, ops):
+    """apply the operations (op, arg) to ONE new DataSet; returns one entry per operation:
+    None (nothing to look at), a dict (the table read, copied at that moment), a (nlabel, labels) pair
+    for ds.peaks_table, or {"exc": ...} (the history stops there)"""
+    out = []
+    with hush():
+        try:
+            ds = env.open()
+        except common.MachineryError:
+            raise
+        except Exception as e:
+            return [{"exc": "%r" % (e,)}], None
+        for op, arg in ops:
+            try:
+                if op == "pk2d":
+                    o = copy_dict(ds.pk2d)
+                elif op == "pk4d":
+                    o = copy_dict(ds.pk4d)
+                elif op == "cf2d":
+                    o = cf_dict(ds.get_cf_2d())
+                elif op == "cf4d":
+                    o = cf_dict(ds.get_cf_4d())
+                elif op == "table":
+                    t = ds.peaks_table
+                    o = (int(t.nlabel), np.array(t.glabel))
+                elif op == "setmon":
+                    if int(arg) == 1:
+                        ds.set_monitor(name="mon1")                  # monitor_ref = np.mean(monitor), the default
+                    else:
+                        ref = env.monrefs[int(arg) - 1]
+                        ds.set_monitor(name="mon%d" % int(arg), ref_value_func=lambda x: ref)
+                    o = None
+                elif op == "reset":
+                    ds.reset_peaks_cache()
+                    o = None
+                elif op == "saveload":
+                    ds = env.saveload(ds)
+                    o = None
+                else:
+                    raise common.MachineryError("unknown DataSet operation %r" % (op,))
+            except common.MachineryError:
+                raise
+            except Exception as e:
+                out.append({"exc": "%r" % (e,)})
+                break
+            out.append(o)
+        tt = None
+        try:
+            tt = (int(ds.peaks_table.nlabel), np.array(ds.peaks_table.glabel))
+        except Exception as e:
+            tt = {"exc": "%r" % (e,)}
+        del ds
+    return out, tt
+
+
+def rows_problems(what, rows, den, cmin, lab, m):
+    """the specification's merged rows (per component in the order of the minima) against a merged table
+    of the code, mapped through the code's (valid) numbering"""
+    from fractions import Fraction
+    out = []
+    roots = sorted(set(cmin))
+    for k, r in enumerate(roots):
+        cl = int(lab[r])
+        want = {"Number_of_pixels": Fraction(rows[0][k]), "sum_intensity": Fraction(rows[1][k], den),
+                "s_raw": Fraction(rows[2][k], rows[1][k]), "f_raw": Fraction(rows[3][k], rows[1][k]),
+                "omega": Fraction(rows[4][k], rows[1][k]), "dty": Fraction(rows[5][k], rows[1][k]),
+                "npk2d": Fraction(rows[6][k])}
+        for name, e in want.items():
+            x = float(m[name][cl])
+            if not L.close(x, e, max(1.0, abs(float(e)))):
+                out.append("%s[%s][%d] = %r, specification value %s" % (what, name, cl, x, e))
+    return out
+
+
+def judge_ds(env, dshist, obs, final, stats=None):
+    """dshist: the specification's entries [op, arg, mon, ret]; the expectation of every read is the
+    table of the labels of the file with the scale factors of entry.mon (the LAW - not entry.ret, which
+    is what the model of the code returns and equals mon by invariant DsLaw)"""
+    problems = []
+    if env.saved is None:
+        return ["building and saving the table / opening the DataSet raised %s"
+                % (obs[0].get("exc") if obs and isinstance(obs[0], dict) else "?")]
+    nl0, lab0 = env.saved
+    pr, _ = L.judge_labels(env.n, env.root, nl0, lab0)
+    if pr:
+        return ["the table saved for the DataSet histories: %s" % pr[0]]
+    done = []
+    for k, e in enumerate(dshist):
+        name = e["op"] + ("(%d)" % e["arg"] if e["op"] == "setmon" else "")
+        done.append(name)
+        where = "after " + ", ".join(done)
+        if k >= len(obs):
+            break
+        o = obs[k]
+        if isinstance(o, dict) and "exc" in o:
+            problems.append("%s: %s raised %s" % (where, name, o["exc"]))
+            break
+        if e["op"] == "table":
+            if o[0] != nl0 or not np.array_equal(o[1], lab0):
+                problems.append("%s: ds.peaks_table does not hold the labels that were saved" % where)
+            continue
+        if e["op"] not in DS_READS:
+            continue
+        mon = int(e["mon"])
+        table, scaled = env.tabs[mon]
+        how = "monitor %d in force" % mon if mon else "no monitor set"
+        if e["op"] in ("pk4d", "cf4d"):
+            pr = L.judge_merge(table, np.asarray(lab0, np.int64), nl0, scaled, o)
+            if not pr and env.rows is not None:
+                pr = rows_problems("merged table", env.rows[mon], table.sc_den, [int(x) for x in env.root], lab0, o)
+            if stats is not None:
+                stats["ds_merged_reads_judged"] = stats.get("ds_merged_reads_judged", 0) + 1
+                if mon:
+                    stats["ds_merged_reads_with_monitor"] = stats.get("ds_merged_reads_with_monitor", 0) + 1
+        else:
+            pr = L.judge_pk2d(table, lab0, scaled, o)
+            if stats is not None:
+                stats["ds_2d_reads_judged"] = stats.get("ds_2d_reads_judged", 0) + 1
+        problems += ["%s (%s): %s" % (where, how, p) for p in pr[:3]]
+        if len(problems) >= 5:
+            break
+    if isinstance(final, dict):
+        problems.append("ds.peaks_table at the end raised %s" % final["exc"])
+    elif final is not None and (final[0] != nl0 or not np.array_equal(final[1], lab0)):
+        problems.append("at the end ds.peaks_table does not hold the labels that were saved")
+    return problems
+
+
+def ds_stale_risk(r):
+    """non-vacuity: reads that follow a set_monitor to ANOTHER monitor than the one a table of the same
+    kind was last read under (the reads a surviving cache would get wrong)"""
+    last = {"2": None, "4": None}
+    cnt = 0
+    for e in r["dshist"]:
+        if e["op"] in DS_READS:
+            k = e["op"][-2]
+            if last[k] is not None and last[k] != e["mon"]:
+                cnt += 1
+            last[k] = e["mon"]
+        elif e["op"] == "saveload":
+            last = {"2": None, "4": None}
+    return cnt
+
+
+def ds_key(r):
+    return tuple((e["op"], int(e["arg"])) for e in r["dshist"])
+
+
+def parse_ds_records(res, name):
+    recs, seen, bad = [], set(), 0
+    for s_ in res.printed:
+        try:
+            r = json.loads(s_)
+            if "dshist" not in r:
+                continue
+            key = (r["n"], tuple(r["ei"]), tuple(r["ej"]), tuple(r["hist"]), ds_key(r))
+        except Exception:
+            bad += 1
+            continue
+        if key not in seen:
+            seen.add(key)
+            recs.append(r)
+    if bad:
+        raise common.MachineryError("%d unparsable Emit lines in TLC run %s" % (bad, name))
+    return recs
+
+
+def ds_env_of(grp, sd=0, stats=None):
+    """the disjoint union of the instances of one history (records grp, same dshist) as one DataSet"""
+    r0 = grp[0]
+    n, ei, ej, offs = L.union_of_records(grp, False)
+    root = np.concatenate([np.array(r["cmin"], np.int64) + int(offs[k]) for k, r in enumerate(grp)])
+    if not np.array_equal(root, L.roots_unionfind(n, ei, ej)):
+        raise common.MachineryError("specification cmin != union-find oracle on a DataSet instance")
+    props = np.concatenate([np.array(r["props"], np.int64).reshape(5, r["n"]) for r in grp], axis=1)
+    nm = len(r0["monscale"])
+    rows = [[sum((r["outm"][m][row] for r in grp), []) for row in range(7)] for m in range(nm)]
+    for r in grp:
+        for k in ("omega", "dty", "monitor", "monref", "monscale", "monscaleden"):
+            if r[k] != r0[k]:
+                raise common.MachineryError("DataSet records of one history disagree on %s" % k)
+    # the specification's own arithmetic: scale numerator / SDen == monitor_ref / monitor
+    for m in range(1, nm):
+        for f in range(len(r0["omega"])):
+            if r0["monscale"][m][f] * r0["monitor"][m - 1][f] != r0["monref"][m - 1] * r0["monscaleden"][m]:
+                raise common.MachineryError("specification scale factors are not monitor_ref / monitor")
+    return DsEnv(n, ei, ej, root, props, r0["omega"], r0["dty"], r0["monitor"], r0["monref"], r0["monscale"],
+                 r0["monscaleden"], shape=(2, len(r0["omega"]) // 2), sd=sd, stats=stats, rows=rows)
+
+
+def replay_ds(recs, stats, limit=5):
+    """every DataSet history of the records on a real DataSet.  Returns [(what, case)] (at most limit)"""
+    numba, P, threads = load_real()
+    groups = {}
+    for r in recs:
+        groups.setdefault(ds_key(r), []).append(r)
+    envs = {}
+    out = []
+    t0 = time.time()
+    ops_seen = {}
+    for gi, (key, grp) in enumerate(sorted(groups.items())):
+        grp.sort(key=lambda r: (r["n"], r["ei"], r["ej"]))
+        for r in grp[1:]:
+            if r["dshist"] != grp[0]["dshist"]:
+                raise common.MachineryError("the specification's DataSet history depends on the instance")
+        ik = tuple((r["n"], tuple(r["ei"]), tuple(r["ej"]), tuple(r["labels"])) for r in grp)
+        if ik not in envs:
+            envs[ik] = ds_env_of(grp, sd=common.seed() + len(envs), stats=stats)
+        env = envs[ik]
+        dshist = grp[0]["dshist"]
+        nt = 3 if (gi % 16 == 5 and 3 in threads) else 1     # the DataSet adds no parallel code of its own
+        with numba_threads(numba, nt):
+            obs, final = observe_ds(env, [(e["op"], e["arg"]) for e in dshist])
+        pr = judge_ds(env, dshist, obs, final, stats)
+        stats["ds_histories"] = stats.get("ds_histories", 0) + 1
+        for e in dshist:
+            ops_seen[e["op"]] = ops_seen.get(e["op"], 0) + 1
+        if pr and len(out) < limit:
+            what = "DataSet history %s on the union of %d TLC instances: %s" % (
+                [k[0] + ("(%d)" % k[1] if k[0] == "setmon" else "") for k in key], len(grp), pr[0])
+            out.append((what, {"kind": "ds", "recs": grp, "problems": pr[:5]}))
+    stats["ds_operations"] = ops_seen
+    stats["ds_instances"] = [len(k) for k in envs]
+    stats["ds_wall_s"] = round(time.time() - t0, 1)
+    return out
+
 # --------------------------------------------------------------------------------------
 # replayable cases
 
@@ -551,6 +904,8 @@ def run_case(case):
     if kind == "child":
         res = run_child(case["job"])
         return list(res.get("problems", []))
+    if kind == "ds":
+        return [w for w, _ in replay_ds(case["recs"], {})]
     if kind == "graph":
         n = int(case["n"])
         ei = np.array(case["ei"], np.int64)
@@ -1338,6 +1693,62 @@ def run_child(job):
     return collect_child(spawn_child(job))
 
 
+def start_ds_child(name, coverage):
+    """the DataSet histories of one TLC configuration: TLC and the replay of every emitted history on a
+    real DataSet run in a child process (one numba thread mostly, no parallel code of their own) while the
+    parent goes on; the TLC run is accounted by the parent (finish_children)"""
+    return spawn_child({"name": "DataSet histories (%s)" % name, "kind": "ds", "config": name,
+                        "coverage": bool(coverage), "workers": min(WORKERS, 4),
+                        "env": {}, "seed": common.seed(), "timeout": 5400})
+
+
+def child_ds(job, res):
+    name = job["config"]
+    r = common.run_tlc("LabelND", cfgpath(name), workers=int(job["workers"]), coverage=bool(job["coverage"]),
+                       timeout=2400)
+    res["tlc"] = {"name": "LabelND_" + name, "error": r.error, "violated": list(r.violated), "finished": bool(r.finished),
+                  "states": r.states, "generated": r.generated, "init_states": getattr(r, "init_states", 1),
+                  "wall": r.wall, "cmd": r.cmd, "coverage": r.coverage, "tail": r.stdout[-1500:]}
+    if r.error or r.violated or not r.finished:
+        return
+    recs = parse_ds_records(r, name)
+    res["tlc"]["records"] = len(recs)
+    if len(recs) != DS_CONFIGS[name][0]:
+        return
+    st = {}
+    res["cases"] = replay_ds(recs, st)
+    res["runs"] = int(st.get("ds_histories", 0))
+    st["tlc_records"] = {"records": len(recs), "histories": len(set(ds_key(x) for x in recs)),
+                         "reads_with_a_monitor_in_force": sum(1 for x in recs for e in x["dshist"] if e["ret"] > 0),
+                         "reads_after_a_change_of_monitor_with_tables_cached_before": sum(ds_stale_risk(x) for x in recs)}
+    res["stats"] = st
+
+
+class _Res(object):
+    def __init__(self, d):
+        self.__dict__.update(d)
+
+
+def account_ds_tlc(chk, job, res):
+    """the child's TLC run, accounted and checked like the parent's own"""
+    t = res.get("tlc")
+    name = job["config"]
+    if t is None:
+        raise common.MachineryError("child %r gave no TLC summary: %s" % (job["name"], res.get("error")))
+    r = _Res(t)
+    r.coverage = {k: tuple(v) for k, v in (t.get("coverage") or {}).items()}
+    chk.add_tlc(t["name"], r, require_cover=(ACTIONS + DS_CONFIGS[name][1]) if job["coverage"] else ())
+    if r.violated:
+        # DsLaw / DsCacheOK refuted on the model of the code AS READ: the model or the reading is wrong
+        raise common.MachineryError("TLC %s reports %s violated: the DataSet model needs review\n%s"
+                                    % (name, r.violated, t.get("tail")))
+    if not r.finished:
+        raise common.MachineryError("TLC run %s did not finish\n%s" % (name, t.get("tail")))
+    if t.get("records") != DS_CONFIGS[name][0]:
+        raise common.MachineryError("TLC configuration %s emitted %s DataSet histories, expected %d"
+                                    % (name, t.get("records"), DS_CONFIGS[name][0]))
+
+
 def start_children(chk, recs):
     handles = []
     skipped = chk.notes.setdefault("children_skipped", {})
@@ -1360,8 +1771,12 @@ def finish_children(chk, handles, stats):
         if res.get("skipped"):
             chk.notes.setdefault("children_skipped", {})[name] = res["skipped"]
             continue
+        if h["job"].get("kind") == "ds":
+            account_ds_tlc(chk, h["job"], res)
+            chk.notes.setdefault("tlc_dataset_histories", {})[h["job"]["config"]] = \
+                (res.get("stats") or {}).pop("tlc_records", None)
         if res.get("error"):
-            if res.get("problems"):
+            if res.get("problems") or res.get("cases"):
                 pass                      # a broken tree: the problems are reported below
             else:
                 raise common.MachineryError("child %r failed: %s" % (name, res["error"]))
@@ -1370,6 +1785,10 @@ def finish_children(chk, handles, stats):
         chk.traces += int(res.get("runs", 0))
         for k in range(int(res.get("runs", 0))):
             chk.case(("child", name, k))
+        if res.get("stats"):
+            out[name].update(res["stats"])
+        for what, case in res.get("cases", [])[:5]:
+            chk.violation(what, case)           # replayable in-process (kind "ds")
         for pr in res.get("problems", [])[:3]:
             job = dict(h["job"])
             chk.violation("child process (%s): %s" % (name, pr), {"kind": "child", "job": job})
@@ -1468,11 +1887,22 @@ def child_real_main(job, res):
             pr = ["saved labels: %s" % x for x in pr]
             if not pr:
                 with hush():
-                    dsu, dss = D.load(dsfile), D.load(dsfile)
-                    dss.monitor, dss.monitor_ref = mon, 1.0
-                    st = {"name": "main+dataset.load", "attrs": (int(dsu.peaks_table.nlabel), np.array(dsu.peaks_table.glabel)),
-                          "merge_u": copy_dict(dsu.pk4d), "merge_s": copy_dict(dss.pk4d),
-                          "pk2d_u": copy_dict(dsu.pk2d), "pk2d_s": copy_dict(dss.pk2d)}
+                    if k % 2:
+                        dsu, dss = D.load(dsfile), D.load(dsfile)
+                        dss.monitor, dss.monitor_ref = mon, 1.0
+                        st = {"name": "main+dataset.load", "attrs": (int(dsu.peaks_table.nlabel), np.array(dsu.peaks_table.glabel)),
+                              "merge_u": copy_dict(dsu.pk4d), "merge_s": copy_dict(dss.pk4d),
+                              "pk2d_u": copy_dict(dsu.pk2d), "pk2d_s": copy_dict(dss.pk2d)}
+                    else:
+                        # ONE DataSet: both tables, then the monitor is given, then both tables again
+                        ds1 = D.load(dsfile)
+                        st = {"name": "main+dataset.load [tables, monitor, tables]",
+                              "attrs": (int(ds1.peaks_table.nlabel), np.array(ds1.peaks_table.glabel)),
+                              "pk2d_u": copy_dict(ds1.pk2d), "merge_u": copy_dict(ds1.pk4d)}
+                        ds1.monitor, ds1.monitor_ref = mon, 1.0
+                        ds1.reset_peaks_cache()
+                        st["merge_s"] = copy_dict(ds1.pk4d)
+                        st["pk2d_s"] = copy_dict(ds1.pk2d)
                 pr = judge_stages(n, root, table, {"stages": [st]})
             res["runs"] += 1
             res.setdefault("sinograms", []).append({"scans": ny, "frames": nf, "nproc": nproc, "peaks_2d": n,
@@ -1492,6 +1922,15 @@ def child_main(jobfile):
         job = json.load(f)
     res = {"name": job["name"], "problems": [], "runs": 0, "merges": 0}
     t0 = time.time()
+    if job.get("kind") == "ds":
+        try:
+            child_ds(job, res)
+        except Exception as e:
+            res["error"] = "%r\n%s" % (e, traceback.format_exc()[-1500:])
+        res["wall_s"] = round(time.time() - t0, 1)
+        print("@@RESULT " + json.dumps(res, default=lambda o: o.tolist() if hasattr(o, "tolist") else str(o)))
+        sys.stdout.flush()
+        return
     if job.get("kind") == "main":
         try:
             child_real_main(job, res)
@@ -1701,6 +2140,39 @@ def selftest(full=True):
         raise common.MachineryError("selftest: find_uniq returning other labels than the table holds was accepted")
     if not judge_stages(n, root, table, {"stages": [good], "exc": "saveload raised KeyError"}):
         raise common.MachineryError("selftest: an exception during a history was not reported")
+    # (2b') DataSet histories: the law is judged against the monitor in force, whatever the caches did
+    env = DsEnv(n, ei, ej, root, table.props, [-5, 5, 15, 25], [7, 4, -5, -20], [[1, 3, 12, 8], [12, 2, 24, 3]], [6, 6],
+                [[1, 1, 1, 1], [24, 8, 2, 3], [2, 12, 1, 8]], [1, 4, 4])
+    for tb, _ in env.tabs:
+        tb.props = tb.props.copy()
+        tb.props[4] = np.arange(n) % 4
+    env.saved = (nl, lab.copy())
+    so = [synthetic_obs(n, root, tb) for tb, _ in env.tabs]
+
+    def rd(op, m):
+        return {"pk2d": so[m]["pk2d_s" if m else "pk2d_u"], "pk4d": so[m]["merge_s" if m else "merge_u"]}[op]
+    dsh = [{"op": "pk2d", "arg": 0, "mon": 0, "ret": 0}, {"op": "pk4d", "arg": 0, "mon": 0, "ret": 0},
+           {"op": "setmon", "arg": 1, "mon": 1, "ret": -1}, {"op": "pk2d", "arg": 0, "mon": 1, "ret": 1},
+           {"op": "pk4d", "arg": 0, "mon": 1, "ret": 1}, {"op": "table", "arg": 0, "mon": 1, "ret": -1},
+           {"op": "setmon", "arg": 2, "mon": 2, "ret": -1}, {"op": "pk4d", "arg": 0, "mon": 2, "ret": 2}]
+    good_obs = [rd("pk2d", 0), rd("pk4d", 0), None, rd("pk2d", 1), rd("pk4d", 1), (nl, lab.copy()), None, rd("pk4d", 2)]
+    if judge_ds(env, dsh, good_obs, (nl, lab.copy())):
+        raise common.MachineryError("selftest: a correct DataSet history was rejected: %s"
+                                    % judge_ds(env, dsh, good_obs, (nl, lab.copy())))
+    nds = 0
+    for what, k, o in (("merged table without the scale factors after set_monitor", 4, rd("pk4d", 0)),
+                       ("2D table without the scale factors after set_monitor", 3, rd("pk2d", 0)),
+                       ("merged table of the previous monitor after the second set_monitor", 7, rd("pk4d", 1)),
+                       ("merged table with scale factors before any monitor", 1, rd("pk4d", 1)),
+                       ("other labels in ds.peaks_table", 5, (nl, (nl - 1) - lab)),
+                       ("an exception", 4, {"exc": "TypeError()"})):
+        bad_obs = list(good_obs)
+        bad_obs[k] = o
+        if not judge_ds(env, dsh, bad_obs, (nl, lab.copy())):
+            raise common.MachineryError("selftest: DataSet history accepted with %s" % what)
+        nds += 1
+    if not judge_ds(env, dsh, good_obs, (nl, (nl - 1) - lab)):
+        raise common.MachineryError("selftest: other labels in ds.peaks_table at the end of a history accepted")
     # (2c) general value tables (exact integer arithmetic on the binary values of the inputs)
     n2, ei2, ej2 = L.make_instance("vclass", 400, 7)
     root2 = L.roots_unionfind(n2, ei2, ej2)
@@ -1761,6 +2233,7 @@ def selftest(full=True):
             raise common.MachineryError("selftest: corrupted trace %d accepted: %s" % (c["tid"], verdicts.get(c["tid"])))
     out = {"label_perturbations_rejected": 5, "merge_perturbations_rejected": 16,
            "stale_merge_after_renumbering_rejected": 3, "general_value_table_perturbations_rejected": nvt,
+           "stale_dataset_reads_rejected": nds,
            "corrupted_traces_rejected": {c["tid"]: verdicts[c["tid"]]["clause"] for c in bad}}
     # (4) the invariants have teeth: wrong variants of the sweep are refuted by TLC; the race is in the model
     if full:
@@ -1774,6 +2247,8 @@ def selftest(full=True):
         out["lost_update_witness"] = r.violated
         r = tlc(None, "bugpmerge", 300, expect=("MergeOK",))
         out["bugpmerge"] = r.violated
+        r = tlc(None, "bugds", 300, expect=("DsLaw",))
+        out["bugds"] = r.violated
     return out
 
 
@@ -1800,12 +2275,14 @@ def run(tier, replay=None):
     thorough = tier == "thorough"
 
     # ---- TLC -------------------------------------------------------------------------
+    # the DataSet histories (TLC + replay on a real DataSet) run in children from the start
+    children = [start_ds_child(name, thorough and name in ("ds", "dscore"))
+                for name in (("ds", "dscore", "ds4", "dsdeep") if thorough else ("ds", "dscore"))]
     runs = [("seq", 600, thorough), ("hist", 600, thorough), ("q2", 900, thorough)]
     if thorough:
         runs += [("t3", 900, False), ("tree5", 1200, False), ("static", 900, False), ("ord", 1200, False),
                  ("e4", 1800, False), ("live", 1200, False)]
     recs = {"seq": [], "tree5": [], "hist": []}
-    children = []
     for name, to, cov in runs:
         res = tlc(chk, name, to, coverage=cov, cover=(ACTIONS + HIST_ACTIONS if name == "hist" else ACTIONS))
         if res.violated:
@@ -1817,7 +2294,7 @@ def run(tier, replay=None):
             recs[name] = parse_records(res, name)
         if name == "seq" and not chk.violations:
             # the children (other numba configurations) compile and run while TLC and the parent go on
-            children = start_children(chk, recs["seq"])
+            children += start_children(chk, recs["seq"])
     if thorough:
         res = tlc(chk, "lost", 300, expect=("NeverRaises",))
         chk.notes["lost_update_witness"] = "NeverRaises refuted by TLC in %d states (the race is in the model)" % res.states
@@ -1864,11 +2341,15 @@ def run(tier, replay=None):
                 "find_ND_labels, pks_table.find_uniq (numba, scipy), pk2dmerge (+scale_factor), pk2d at numba threads %s "
                 "(individually and as disjoint unions); every (instance, history) of configuration hist (<= 3 nodes, "
                 "<= 2 operations out of find_uniq again / scipy / save+load / merge again) on a table built by the "
-                "shared-memory user route, judged after every operation; seeded families up to %s nodes incl. two "
+                "shared-memory user route, judged after every operation; every DataSet history of configurations "
+                "ds / dscore%s (all sequences of 3 of pk2d, pk4d, get_cf_2d, get_cf_4d, peaks_table, set_monitor x 2, "
+                "reset_peaks_cache, save + load; of 4 of pk2d, pk4d, set_monitor x 2, reset; closed by pk2d, pk4d) on a "
+                "real DataSet, every read judged against the monitor in force; seeded families up to %s nodes incl. two "
                 "histories each, interleaved stars merged repeatedly, general value tables; child processes for "
                 "17/24/32 threads and the workqueue layer; recorded sweeps validated by LabelND_Trace.  "
                 "non-trivial = has edges and at least one merge"
-                % (", all 5-node spanning trees" if thorough else "", threads, "1e6" if thorough else "2e5"))
+                % (", all 5-node spanning trees" if thorough else "", threads,
+                   " / ds4 / dsdeep (4 of all, 6 of the five)" if thorough else "", "1e6" if thorough else "2e5"))
     chk.assumptions = [
         "sequential consistency per aligned int64 load/store of the label array (no tearing, no store buffering effects)",
         "the prange barrier at the end of each sweep makes all stores visible before the next sweep",
